@@ -246,15 +246,18 @@ class SqlRunner:
         self.drainer.start()
         threading.Thread(target=watchdog, args=(self.p, self.mem_gb << 30), daemon=True).start()
 
-    def run(self, stmts, threads=4, timeout=None):
+    def run(self, stmts, threads=4, timeout=None, retry_factor=4):
         """Returns list of per-statement results, or {'crash': stderr tail} / {'timeout': True}.
         A timeout is retried once on a fresh child: the engine's thread pool occasionally fails to make progress under
         heavy machine load (seen once in ~10^5 requests; not reproducible, recorded in the evidence as a retried timeout);
         a request that times out twice is reported."""
         res = self._run_once(stmts, threads, timeout)
         if isinstance(res, dict) and res.get("timeout"):
+            # second attempt with four times the budget: under heavy machine load (other checks running on all cores) a
+            # nested-loop join over a large generated table can exceed a budget that is ample otherwise; a real hang still
+            # times out, only later
             RETRIED_TIMEOUTS.append(stmts[-1][:200] if stmts else "")
-            res = self._run_once(stmts, threads, timeout)
+            res = self._run_once(stmts, threads, min(retry_factor * (timeout or self.timeout), 900))
         return res
 
     def _run_once(self, stmts, threads=4, timeout=None):
